@@ -4,7 +4,9 @@ randomness is visible as equal values / correlation.
 Node := ["site", dist, [sample_shape]]       dist in {"normal","uniform"}; standard parameters (0,1)
       | ["seq", [Node]]
       | ["scan", n, Node]                     lax.scan; body samples; outputs stacked
-      | ["vmap", n, Node]                     modular_vmap(axis_size=n)
+      | ["vmap", n, Node] | ["vmap", n, Node, "p"]   modular_vmap(axis_size=n); with "p" the lanes are mapped over a vector of zeros that
+                                              is added to every site's location: the sites' *parameters* then carry the mapped axis
+                                              (lane-wise sampler path), their values stay standard draws
       | ["cond", Node, Node]                  lax.cond on (previous draw > threshold); both branches sample
       | ["gen", Node]                         a @gen function whose body is Node (sites addressed), simulated
       | ["nseed", Node, j]                    (opt-in) a nested seed: seed(body)(fold_in(inner_key, j)) called inside the seeded function;
@@ -25,7 +27,7 @@ def shapes(max_depth=3, max_leaves=6, nseed=False):
         return st.one_of(
             st.tuples(st.just("seq"), st.lists(ch, min_size=2, max_size=3)).map(list),
             st.tuples(st.just("scan"), st.integers(2, 4), ch).map(list),
-            st.tuples(st.just("vmap"), st.integers(2, 3), ch).map(list),
+            st.tuples(st.just("vmap"), st.integers(2, 3), ch, st.sampled_from(["", "p"])).map(list),
             st.tuples(st.just("cond"), ch, ch).map(list),
             st.tuples(st.just("gen"), ch).map(list),
             *([st.tuples(st.just("nseed"), ch, st.integers(0, 1)).map(list)] * (2 if nseed else 0)),
@@ -46,7 +48,7 @@ def _no_nseed_in_loops(node, in_loop=False, counter=None):
     if k == "seq":
         return ["seq", [_no_nseed_in_loops(c, in_loop, counter) for c in node[1]]]
     if k in ("scan", "vmap"):
-        return [k, node[1], _no_nseed_in_loops(node[2], True, counter)]
+        return [k, node[1], _no_nseed_in_loops(node[2], True, counter)] + list(node[3:])
     if k == "cond":
         return ["cond", _no_nseed_in_loops(node[1], in_loop, counter), _no_nseed_in_loops(node[2], in_loop, counter)]
     if k == "nseed":
@@ -102,17 +104,24 @@ def build(node):
     D = {"normal": genjax.normal, "uniform": genjax.uniform}
     counter = [0]
     ikey_box = {"key": None}
+    loc_stack = []  # zero-valued location offsets carried by enclosing parameter-mapped vmaps
+
+    def _off():
+        return sum(loc_stack) if loc_stack else 0.0
 
     def _draw(nd):
         """standard-parameter draw; the *_kw variants pass the parameters by keyword (names whose sorted order differs
         from the positional order for uniform)"""
         kind, shp = nd[1], tuple(nd[2])
         extra = {"sample_shape": shp} if shp else {}
+        o = _off()
         if kind == "uniform_kw":
-            return genjax.uniform.sample(low=0.0, high=1.0, **extra)
+            return genjax.uniform.sample(low=0.0 + o, high=1.0 + o, **extra)
         if kind == "normal_kw":
-            return genjax.normal.sample(scale=1.0, loc=0.0, **extra)
-        return D[kind].sample(0.0, 1.0, **extra)
+            return genjax.normal.sample(scale=1.0, loc=0.0 + o, **extra)
+        if kind == "uniform":
+            return D[kind].sample(0.0 + o, 1.0 + o, **extra)
+        return D[kind].sample(0.0 + o, 1.0, **extra)
 
     def run(nd, scale, out, path, last):
         """Executes nd, writes draws into `out` (dict position->array), returns (a scalar summary of the draws)."""
@@ -137,12 +146,23 @@ def build(node):
                 out[path + "/scan" + p] = v
             return fin
         if k == "vmap":
-            def lane():
+            mapped = len(nd) > 3 and nd[3] == "p"
+
+            def lane(off=None):
                 o = {}
-                s = run(nd[2], scale, o, "", jnp.zeros((), jnp.float32))
+                if mapped:
+                    loc_stack.append(off)
+                try:
+                    s = run(nd[2], scale, o, "", jnp.zeros((), jnp.float32))
+                finally:
+                    if mapped:
+                        loc_stack.pop()
                 return s, o
 
-            ss, outs = modular_vmap(lane, in_axes=(), axis_size=nd[1])()
+            if mapped:
+                ss, outs = modular_vmap(lane, in_axes=(0,))(jnp.zeros(nd[1], jnp.float32))
+            else:
+                ss, outs = modular_vmap(lane, in_axes=(), axis_size=nd[1])()
             for p, v in outs.items():
                 out[path + "/vmap" + p] = v
             return jnp.sum(ss)
@@ -217,7 +237,8 @@ def build(node):
             if nd[2] or nd[1].endswith("_kw"):
                 v = _draw(nd)
             else:
-                v = D[nd[1]](0.0, 1.0) @ f"a{n}"
+                o_ = _off()
+                v = (D[nd[1]](0.0 + o_, 1.0 + o_) if nd[1] == "uniform" else D[nd[1]](0.0 + o_, 1.0)) @ f"a{n}"
             out[path + f"/a{n}"] = v * scale
         elif k == "seq":
             for i, c in enumerate(nd[1]):
